@@ -330,7 +330,8 @@ void h_execlog_reset(void) {
     ftruncate(execlog_fd, 0);
     lseek(execlog_fd, 0, SEEK_SET);
 }
-int h_exec_status; /* exit status of the stub lookup command (it never prints anything) */
+int h_exec_status;         /* exit status of the stub lookup command */
+const char *h_exec_output; /* what it prints (the server block a real lookup script would print); NULL = nothing */
 /* runs in the forked child: write " exec:<hex file>;<hex arg0>,<hex arg1>,.." and leave */
 int h_execlp(const char *file, const char *arg0, ...) {
     va_list ap;
@@ -354,6 +355,8 @@ int h_execlp(const char *file, const char *arg0, ...) {
     va_end(ap);
     if (execlog_fd >= 0)
         write(execlog_fd, buf, q - buf);
+    if (h_exec_output)
+        write(1, h_exec_output, strlen(h_exec_output));
     _exit(h_exec_status);
 }
 char *h_execlog_take(void) {
